@@ -84,6 +84,14 @@ let handle (toks : string list) : string =
      | ROk (code, payload, st', rest) ->
        "ok " ^ hex_of_n code ^ " " ^ hex_of_bytes payload ^ " " ^ dec st'.r_pos ^ " " ^ hex_of_bytes st'.r_mac
        ^ " " ^ hex_of_bytes rest)
+  | ["freadn"; sn; n; pos; mac; stream; ks; aes; stab] ->
+    (* a whole session: read_n — the values a session delivers, and how it ended *)
+    let st = { r_pos = n_of_string pos; r_mac = bytes_of_hex mac } in
+    let (((ms, e), _), _) =
+      read_n keccak256 (aes_of (table aes)) (ks_of ks) (snappy_dec_of (table stab)) (bool_of_tok sn)
+        (nat_of_int (int_of_string n)) st (bytes_of_hex stream) in
+    let items = List.map (fun (c, p) -> hex_of_n c ^ ":" ^ hex_of_bytes p) ms in
+    (if items = [] then "-" else String.concat "," items) ^ " " ^ (match e with None -> "none" | Some e -> rerr_s e)
   | ["decode"; nc; buf; rh; rs; rr] ->
     let rh = bytes_of_hex rh and rs = bytes_of_hex rs in
     let recover h s =
